@@ -1,5 +1,13 @@
+mod absarch;
+mod blake;
+mod c01;
 mod c11;
 mod c12;
+mod c15;
+mod compare;
+mod icept;
+mod real;
+mod treespec;
 mod model;
 mod pathgen;
 mod report;
@@ -12,6 +20,10 @@ fn arg(args: &[String], name: &str) -> Option<String> {
 }
 
 fn main() {
+    // panics of the code under test are caught and reported as results; keep stderr quiet
+    if std::env::var("VERIF_SHOW_PANICS").is_err() {
+        std::panic::set_hook(Box::new(|_| {}));
+    }
     let args: Vec<String> = std::env::args().collect();
     let prop = args.get(1).cloned().unwrap_or_default();
     let tier = arg(&args, "--tier").unwrap_or_else(|| "quick".into());
@@ -26,6 +38,18 @@ fn main() {
         "C12" => {
             report = Report::new("C12", "pairs (subtree, path) of valid apaths: exhaustive to depth 2, sampled extensions (by component and textual) to depth 4; non-trivial = the subtree is a textual prefix of the path");
             c12::run_pure(&tier, seed, &mut report);
+        }
+        "C01" => {
+            report = Report::new("C01", "generated source trees (names around '/', multi-byte, sizes around the small-file cap and block size, all modes, pre/post-epoch mtimes, owners) x option triples; each backed up into a fresh archive and restored; non-trivial = more than the root entry; distinct by canonical case text");
+            c01::run(&tier, seed, &mut report);
+        }
+        "C15" => {
+            report = Report::new("C15", "(pattern set, apath) pairs: 1-3 exclusion patterns built from anchored/unanchored names, *, ?, ** in every position, classes, escapes, non-ASCII names, plus malformed patterns; apaths to depth 4 over a component alphabet; and (single glob, arbitrary string) pairs; non-trivial = the real code answers true; distinct by canonical text of the case");
+            c15::run(&tier, seed, &mut report);
+        }
+        "BLAKE" => {
+            report = Report::new("BLAKE", "BLAKE2b-512 of the Lean model vs blake2-rfc on lengths 0..=300 and block boundaries");
+            blake::run(&tier, seed, &mut report);
         }
         _ => {
             eprintln!("usage: cvharness <C01..C18> [--tier quick|thorough] [--seed N] [--out file]");
